@@ -22,6 +22,15 @@ func main() {
 		os.Exit(kv.CmdCheck(os.Args[2:]))
 	case "list":
 		cmdList(os.Args[2:])
+	case "loops":
+		e, err := kv.Load("/repo")
+		if err != nil {
+			fmt.Fprintln(os.Stderr, err)
+			os.Exit(2)
+		}
+		for _, l := range e.LoopInfo(os.Args[2]) {
+			fmt.Println(l)
+		}
 	default:
 		fmt.Fprintln(os.Stderr, "unknown command", os.Args[1])
 		os.Exit(2)
